@@ -4,11 +4,13 @@ use crate::core::*;
 
 pub struct P;
 
-pub const GEOMETRIES: [(usize, usize); 7] = [(10_000, 2), (1, 1), (1, 2), (2, 2), (3, 3), (0, 0), (7, 4)];
+pub fn geometries() -> [(usize, usize); 7] {
+    [(drows(), dcols()), (1, 1), (1, 2), (2, 2), (3, 3), (0, 0), (7, 4)]
+}
 
 pub fn push_all_front_ends(cases: &mut Vec<String>, stats: &mut Stats, ops: &[Op], ty: u64, geoms: &[(usize, usize)]) {
     for &(rows, cols) in geoms {
-        let default = (rows, cols) == (10_000, 2);
+        let default = (rows, cols) == (drows(), dcols());
         for (sem, fe) in applicable_front_ends(ops, default, ty) {
             // `calls` differs from `extend` only in how results are observed; keep one raw variant per geometry
             if !default && !(fe == "raw_loop" || fe == "raw") {
@@ -30,11 +32,11 @@ impl Prop for P {
             for ks in subsets(&u) {
                 let pats: Vec<usize> = if tier == Tier::Quick { vec![0, 1, 2, 4] } else { (0..NPATTERNS).collect() };
                 // sets through every front end, default geometry + small geometries
-                let geoms: &[(usize, usize)] = if alpha[0] == b'a' && alpha[1] == b'b' { &GEOMETRIES } else { &GEOMETRIES[..2] };
+                let geoms: &[(usize, usize)] = if alpha[0] == b'a' && alpha[1] == b'b' { &geometries() } else { &geometries()[..2] };
                 push_all_front_ends(&mut cases, stats, &set_ops(&ks), 0, geoms);
                 for p in pats {
                     let vals = value_pattern(p, ks.len(), rng);
-                    let g: &[(usize, usize)] = if p == 1 { geoms } else { &GEOMETRIES[..1] };
+                    let g: &[(usize, usize)] = if p == 1 { geoms } else { &geometries()[..1] };
                     push_all_front_ends(&mut cases, stats, &map_ops(&with_values(&ks, &vals)), 0, g);
                 }
                 stats.bump("small_scope_keysets");
@@ -43,7 +45,7 @@ impl Prop for P {
         // 2. boundary-directed families
         for (name, ks) in boundary_keysets(rng, tier) {
             let big = ks.len() > 64 || ks.iter().any(|k| k.len() > 64);
-            let geoms: &[(usize, usize)] = if big { &GEOMETRIES[..2] } else { &GEOMETRIES[..5] };
+            let geoms: &[(usize, usize)] = if big { &geometries()[..2] } else { &geometries()[..5] };
             push_all_front_ends(&mut cases, stats, &set_ops(&ks), 0, geoms);
             for p in [1usize, 2, 4, 8] {
                 let vals = value_pattern(p, ks.len(), rng);
@@ -58,7 +60,7 @@ impl Prop for P {
             let ks = random_keyset(rng, maxk, 8);
             let p = rng.below(NPATTERNS as u64) as usize;
             let vals = value_pattern(p, ks.len(), rng);
-            let g = [*rng.pick(&GEOMETRIES)];
+            let g = [*rng.pick(&geometries()[..])];
             let ty = if rng.chance(1, 5) { rng.next() } else { 0 };
             if p == 0 {
                 push_all_front_ends(&mut cases, stats, &set_ops(&ks), ty, &g);
@@ -76,14 +78,14 @@ impl Prop for P {
                     ops.push(Op::Add(k.clone()));
                 }
             }
-            push_all_front_ends(&mut cases, stats, &ops, 0, &[*rng.pick(&GEOMETRIES)]);
+            push_all_front_ends(&mut cases, stats, &ops, 0, &[*rng.pick(&geometries()[..])]);
             stats.bump("sets_with_repeats");
         }
         // 5. corpora (thorough): model side is slow on these, keep them few
         if tier == Tier::Thorough {
             for (f, n) in [("words-10000", 3000usize), ("wiki-urls-10000", 1500)] {
                 let ks = corpus(f, n);
-                cases.push(build_case("extend", "raw_loop", 0, 10_000, 2, &set_ops(&ks)));
+                cases.push(build_case("extend", "raw_loop", 0, drows(), dcols(), &set_ops(&ks)));
                 stats.bump("corpus_builds");
             }
         }
